@@ -240,9 +240,16 @@ func (me *multiEndpoint) switchFromTo(f, t *endpoint) {
 	timeAfterFunc(me.switchingDelay, func() {
 		me.Lock()
 		defer me.Unlock()
-		if e, ok := me.endpoints[me.future]; ok && e.status == available {
-			me.current = e.id
+		e, ok := me.endpoints[me.future]
+		if !ok || e.status != available {
+			return
 		}
+		// Priorities may have changed since the switch was scheduled: never leave
+		// an available or recovering endpoint for a lower priority one.
+		if c, ok := me.endpoints[me.current]; ok && c.status != unavailable && c.priority < e.priority {
+			return
+		}
+		me.current = e.id
 	})
 }
 
